@@ -25,7 +25,7 @@ SENTINEL = b"# old table left over from an earlier tabulation\nspline cubic\nA B
 
 def gen_base_scenario(seed, tier="quick"):
     rng = random.Random(seed)
-    natural = rng.random() < 0.12
+    natural = rng.random() < 0.18
     opts = {"natural_fault_prob": 1.0 if natural else 0.0,
             "nr_max": 24 if tier == "thorough" else 16,
             "nrho_max": 12 if tier == "thorough" else 8}
@@ -40,6 +40,8 @@ def gen_base_scenario(seed, tier="quick"):
     spec = mg.gen_model(rng, opts)
     target = spec["meta"]["target"]
     r = rng.random()
+    if natural:
+        r = r * 0.6 + 0.3          # natural failures: mostly through potable
     if r < 0.55:
         route = "object"
     elif r < 0.85:
@@ -56,7 +58,7 @@ def gen_base_scenario(seed, tier="quick"):
           "cli_target_override": rng.random() < 0.2,
           "instrument": True if not natural else rng.random() < 0.6,
           "natural": bool(spec["meta"]["natural_fault"]),
-          "subprocess_cli": natural and route == "cli" and rng.random() < 0.15,
+          "subprocess_cli": natural and route == "cli" and rng.random() < 0.6,
           "attempts": [{"k": None}]}
     if route == "cli":
         sc["shared_fp"] = False
